@@ -1,6 +1,6 @@
 SPECIFICATION TraceSpec
 CONSTANTS
-  MaxN = 5
+  MaxN = 16
 CONSTRAINT HW
 POSTCONDITION Accepted
 CHECK_DEADLOCK FALSE
